@@ -33,6 +33,8 @@
 (*                             threshold                                   *)
 (*   LossTimeWrong             and remembers the earliest moment the rest  *)
 (*                             meets the time threshold                    *)
+(*   LossNotSignalled          a loss of packets that counted as in flight  *)
+(*                             on this path is a congestion event          *)
 (* Probe timeout (section 6.2):                                            *)
 (*   LossTimerWrong            after every step the timer is the earliest  *)
 (*                             loss time if there is one; is not armed     *)
@@ -178,6 +180,11 @@ Step ==
                          ELSE LET first == MinOf({e.rem[i].ts : i \in Rem(s)}) IN
                               Q.lt[s] >= first + dMin - 2 /\ Q.lt[s] <= first + dMax + 2
                     ELSE Q.lt[s] = P.lt[s], "LossTimeWrong")
+        \* ---- a loss is a congestion signal: packets of this path that counted as in flight
+        \* (not the MTU probe, whose loss says nothing about congestion) are lost => the controller is told
+        \cup Flag(~(e.sure /\ open /\ samePath)
+                  \/ ((\E i \in DOMAIN e.lost : e.lost[i].size > 0 /\ e.lost[i].size <= P.mtu /\ e.lost[i].onpath) => Q.cev > P.cev),
+                  "LossNotSignalled")
         \* ---- the timer
         \cup Flag(Q.st < 2 \/ Q.tm = -1, "LossTimerOnClosed")
         \cup Flag(CASE want[1] = "is" -> Q.tm # -1 /\ Near(Q.tm, want[2], Pow2(Min(Q.ptoc, 8)) + 1)
